@@ -419,7 +419,7 @@ def socket_schedule(rng, kind, thorough):
     elif kind == "big":                          # one message above the read size
         mode = rng.choice(["plain", "plain", "struct"])
         n = rng.choice([1025, 2000, 4096, 10000, 40000])
-        ops.append(("send", mode, F.rand_plain(rng, n) if mode == "plain" else ("blob", "y" * n)))
+        ops.append(("send", mode, F.rand_plain(rng, n) if mode == "plain" else F.big_struct(n)))
         ops.append(("recv", mode, rng.choice([1024, 1024, 4096])))
         ops.append(("recv", mode, 65536))
     elif kind == "witness-a":
@@ -452,8 +452,21 @@ def socket_part(ctx, rng, cases, worst, thorough):
                     raw = o[2].encode("utf-8") if o[1] == "plain" else pickle.dumps(o[2])
                     if inflight + len(raw) > 150000:
                         continue
-                    (tx.send if o[1] == "plain" else tx.send_structured)(o[2])
-                    assert tx._app_socket.sent[-1] == raw
+                    try:
+                        (tx.send if o[1] == "plain" else tx.send_structured)(o[2])
+                    except Exception as e:            # noqa: BLE001   a picklable message that cannot be sent is not delivered "intact" either
+                        ctx.count("socket_oracle_failures")
+                        worst.add("socket:send-raised", (len(sched), len(raw), 0), "sending %r raised %s: %s" % (repr(o[2])[:80], type(e).__name__, str(e)[:100]),
+                                  {"part": "socket", "schedule": repr(sched)[:2000]})
+                        break
+                    if tx._app_socket.sent[-1] != raw:
+                        # the bytes on the wire are not the documented encoding (utf-8 / pickle): the tie of the codec is broken; the
+                        # model is run on the bytes actually sent and the oracle below still compares values
+                        ctx.count("socket_sends_with_unexpected_encoding")
+                        worst.add("socket:wire-encoding-differs", (len(sched), len(raw), 0),
+                                  "send of %r put %d bytes on the wire that are not its utf-8 / pickle encoding" % (repr(o[2])[:60], len(tx._app_socket.sent[-1])),
+                                  {"part": "socket", "schedule": repr(sched)[:2000]})
+                        raw = tx._app_socket.sent[-1]
                     sent_vals.append((o[1], o[2], len(raw)))
                     mops.append(("send", raw))
                     events.append(("send", len(raw), o[2]))
